@@ -96,6 +96,37 @@ for _c, _t in [('C17', 'launch-size expressions outer[k]/inner[k] = E and index 
         technique='translation validation with a deductive back end: CBMC contracts on emitted code per enumerated program',
         design='5/' + _c)
 
+for _c, _t in [('C03', 'placement: every live reservation inside the pool, pointer == buffer + offset, slices inside their parent, top-level reservations pairwise disjoint, and - through a ghost tracked byte followed across every backend memcpy - contents preserved by reserve/resize/shrinkToFit/setAlignment/release/slice'),
+               ('C04', 'accounting: numReservations() == live reservations, reserved() == size of the union of the live ranges rounded out to the alignment (reference: sweep over sorted ranges), size() >= reserved(), reserved() == 0 when all are released, resize below reserved() and alignment 0 raise, device accounting of the backing buffers')]:
+    CLAIMED[_c] = dict(
+        level='other',
+        text='BOUNDED stand-in, not a proof. modeMemoryPool_t::{reserve, resize, setAlignment, addModeMemoryRef, removeModeMemoryRef, numReservations} and serial::memoryPool::{makeBuffer, slice, setPtr, memcpy} extracted verbatim, std::set stub ordered by the real comparator; '
+             'from every state of the family F (fresh pool, <= 3 reservations of symbolic size at the packed offsets, optional slice, any subset released: fragmented pools, all reachable through the public operations) one symbolic operation is executed and checked: ' + _t +
+             '. Sizes symbolic below 2^10 (quick) / 2^12 (thorough), alignments enumerated. The unit tests reserve a few fixed sizes and never fragment the pool.',
+        note='bounds: histories = state family F + one operation; <= 4 live reservations; alignments {128->8, 8->24} quick. Trusted: CBMC C++ front end, set/buffer stubs, addresses modelled as integers, comparator tie-break on ghost ids. Not reached: the memoryPool handle forwarders, longer histories.',
+        technique='CBMC on mechanically extracted real functions from an enumerated reachable state family (bounded), ghost content tracking',
+        design='5/C03-C04, 10.2')
+CLAIMED['C29'] = dict(
+    level='proof',
+    text='The 11 newOccaType<T>, newOccaType(primitive), newOccaType(primitive,int), c::primitive(occaType[,int]), the c::kernelArg and inferJson switches and the 19 public occaBool...occaULong constructors are C-extracted each run (reusing the primitive extraction of C14): for every scalar C type and every bit pattern the occaType has the right tag, bytes and needsFree, '
+         'converts back to the same value and type, converts between types like the C cast (121 pairs), and takes the kernel-argument and JSON paths with value and type intact. Loop-free, all values. Tests sample a few values per type.',
+    note='trusted: CBMC C front end + SAT/cvc5, C extraction rules. Not reached: handle lifetimes (occaFree), strings, nested JSON objects/arrays, histories of set/get/free.',
+    technique='CBMC contracts on mechanically C-extracted real functions (loop-free, complete over the machine domain)',
+    design='5/C29')
+CLAIMED['C06'] = dict(
+    level='other',
+    text='Composition law of the kernel cache key under a stated idealisation of the byte hash (distinct strings hash to XOR-independent one-hot values): the real serial/openmp device::kernelHash, kernelHeaderHash, kernelPropertyHash, device::setupKernelInfo composition, hash_t::operator^ and json::hash are extracted; for two symbolic configurations '
+         '(values may coincide across properties) equal keys imply that every named build input (compiler, flags, linker/shared flags, env script, language, okl, defines, includes, headers, functions, source) is equal, and changing any single input changes the key. Bounded: value dumps of fixed length 2 (quick) / 3 (thorough). No finite set of example configurations can decide this.',
+    note='idealisation: injectivity of the byte hash itself is assumed (no contract can prove a hash injective); trusted: CBMC C++ front end, json stub of value ids. Not reached: applyDependencyHash (file system), launcher modes, cache directory layout.',
+    technique='CBMC relational contract over two symbolic configurations on mechanically extracted real functions (hash idealised)',
+    design='5/C06')
+CLAIMED['C10'] = dict(
+    level='other',
+    text='BOUNDED: modeKernel_t::setupRun extracted verbatim with fully symbolic argument and parameter lists of <= 2 (quick) / <= 3 (thorough) entries and an arbitrary cast relation: raises exactly when the counts differ, a memory/pointer mismatch exists or a memory dtype cannot be cast, otherwise returns; plus safety of dtype_t::canBeCastedTo / isCyclic over flattened vectors of <= 3 / <= 4 entries (no division by zero, indices in range).',
+    note='trusted: CBMC C++ front end, std::vector stub, canBeCastedTo as uninterpreted-but-consistent predicate in part A. Not reached: the cast lattice as a specification, metadata extraction by the parser, fresh-vs-cached equality (file system + JSON).',
+    technique='CBMC on mechanically extracted real functions, bounded argument lists',
+    design='5/C10')
+
 PENDING_REASON = 'check not built yet in this session (planned, see DESIGN.md section 5); not claimed until it runs'
 
 
